@@ -20,13 +20,14 @@ type UCIGenCfg struct {
 	PStop      float64 `json:"p_stop"`
 	Ponder     bool    `json:"ponder"`
 	Extremes   bool    `json:"extremes"`
-	Quantum    int     `json:"quantum"`  // 0 tiny, 1 small, 2 mixed, 3 large
+	Quantum    int     `json:"quantum"` // 0 tiny, 1 small, 2 mixed, 3 large
 	PollCostUS int64   `json:"poll_cost_us"`
-	Timed      bool    `json:"timed"`    // favour clock-based go commands
+	Timed      bool    `json:"timed"` // favour clock-based go commands
 	CRLF       bool    `json:"crlf"`
 	Spsa       bool    `json:"spsa"`
 	Hash       bool    `json:"hash"`
-	SweepStop  int     `json:"sweep_stop"` // >0: every go is stopped exactly at this poll (systematic sweep)
+	SweepStop  int     `json:"sweep_stop"`          // >0: in every search SweepCmd is sent exactly when the search is parked before this poll (systematic sweep)
+	SweepCmd   string  `json:"sweep_cmd,omitempty"` // stop (default) | quit | eof | isready | ponderhit
 }
 
 func drawUCIGenCfg(rng *rand.Rand, stub bool) UCIGenCfg {
@@ -49,32 +50,33 @@ func drawUCIGenCfg(rng *rand.Rand, stub bool) UCIGenCfg {
 }
 
 type genGo struct {
-	ponder     bool
-	hitSent    bool
-	stopSent   bool
-	steps      int
-	limit      int
-	drained    bool
+	ponder   bool
+	hitSent  bool
+	stopSent bool
+	steps    int
+	limit    int
+	drained  bool
+	swept    bool
 }
 
 // uciGen is the PRNG-driven GUI and scheduler policy: it only ever emits
 // protocol-conforming input, and only stop/isready/ponderhit/quit/EOF while a
 // bestmove is owed.
 type uciGen struct {
-	rng    *rand.Rand
-	cfg    UCIGenCfg
-	sc     *UCIScenario
-	queue  []UStep
-	stage  int // 0 preamble, 1 between turns, 2 go issued
-	game   *ref.Game
-	turns  int
-	stall  int
-	cur    genGo
-	ended  bool
-	ponderOn bool
-	evSeen int
-	lastBest string
-	goCount int
+	rng         *rand.Rand
+	cfg         UCIGenCfg
+	sc          *UCIScenario
+	queue       []UStep
+	stage       int // 0 preamble, 1 between turns, 2 go issued
+	game        *ref.Game
+	turns       int
+	stall       int
+	cur         genGo
+	ended       bool
+	ponderOn    bool
+	evSeen      int
+	lastBest    string
+	goCount     int
 	newGameNext bool
 }
 
@@ -367,15 +369,30 @@ func (g *uciGen) during(w *uciWorld) {
 	r := g.rng
 	c := &g.cur
 	c.steps++
-	if g.cfg.SweepStop > 0 && !c.stopSent {
-		// systematic placement: run the search to exactly poll SweepStop, then stop
+	if g.cfg.SweepStop > 0 && !c.stopSent && !c.swept {
+		// systematic placement: run the search to exactly poll SweepStop, then send the command
 		if w.parked && w.cur != nil {
 			if left := g.cfg.SweepStop - 1 - w.curPolls(); left > 0 {
 				g.queue = append(g.queue, UStep{Op: "run", Polls: left})
 				return
 			}
-			g.send("stop")
-			c.stopSent = true
+			c.swept = true
+			switch g.cfg.SweepCmd {
+			case "quit":
+				g.send("quit")
+				g.ended = true
+			case "eof":
+				g.queue = append(g.queue, UStep{Op: "eof"})
+				g.ended = true
+			case "isready":
+				g.send("isready")
+			case "ponderhit":
+				g.send("ponderhit")
+				c.hitSent = true
+			default:
+				g.send("stop")
+				c.stopSent = true
+			}
 			return
 		}
 	}
